@@ -1,4 +1,5 @@
 // C14 (decoder component): lz4::decompress on exact-size guard-page buffers vs a reference block decoder.
+#include <algorithm>
 #include "common/check_main.hpp"
 #include "ref/lz4_ref.hpp"
 #include "inc/Decompressor.h"
@@ -83,11 +84,41 @@ static void make_seeds() {
         if (rr.ok && rr.end_rules && rr.out.size() > blk.size() && blk.size() >= 13 && blk.size() <= 48) g_seeds.push_back(blk); }
     (void)S;
 }
+static void eval_rejected_at_partial_sizes(uint64_t idx, const std::vector<uint8_t> &in, const ref::Lz4Result &rr, size_t already, ShardCtl &c, const char *family);
 static void setup_trunc(Runner &r, const Tier &) {
     make_seeds(); r.ncases = g_seeds.size() * 49; r.alarm_every = 256; r.shard_init = init;
     r.describe = [](uint64_t i) { const auto &b = g_seeds[i / 49]; size_t n = i % 49; JObj o; o.kv("family", "truncation").kv("seed_hex", hex(b.data(), b.size())).kv("prefix_len", (unsigned long long)(n > b.size() ? b.size() : n)); return o; };
     r.body = [](uint64_t i, ShardCtl &c) { const auto &b = g_seeds[i / 49]; size_t n = i % 49; if (n > b.size()) return; std::vector<uint8_t> in(b.begin(), b.begin() + n); ref::Lz4Result full = ref::lz4_decode(b.data(), b.size()), rr = ref::lz4_decode(in.data(), in.size());
-        for (int d : { 0, 1, -1 }) { long os = long(full.out.size()) + d; if (os > 0 && !in.empty()) eval(i, in, size_t(os), rr, c, "truncation"); } };
+        for (int d : { 0, 1, -1 }) { long os = long(full.out.size()) + d; if (os > 0 && !in.empty()) eval(i, in, size_t(os), rr, c, "truncation"); } eval_rejected_at_partial_sizes(i, in, rr, full.out.size(), c, "truncation"); };
+}
+// Output sizes at which a careless decoder could stop: after the literal run and after the match of every sequence of a (possibly invalid) block.
+// A block the reference rejects must be rejected whatever size is announced; these are the sizes at which "the output is already full" hides the defect.
+static std::vector<size_t> partial_sizes(const std::vector<uint8_t> &in) {
+    std::vector<size_t> v; size_t i = 0, n = in.size(), L = 0;
+    while (i < n && v.size() < 24) {
+        uint8_t tok = in[i++]; size_t ll = tok >> 4; if (ll == 15) { uint8_t b; do { if (i >= n) return v; b = in[i++]; ll += b; } while (b == 255); }
+        if (i + ll > n) { if (L + (n - i)) v.push_back(L + (n - i)); return v; }
+        L += ll; i += ll; if (L) v.push_back(L);
+        if (i + 2 > n) return v; i += 2;
+        size_t ml = tok & 15; if (ml == 15) { uint8_t b; do { if (i >= n) { v.push_back(L + ml + 4); return v; } b = in[i++]; ml += b; } while (b == 255); }
+        L += ml + 4; v.push_back(L);
+    }
+    return v;
+}
+static void eval_rejected_at_partial_sizes(uint64_t idx, const std::vector<uint8_t> &in, const ref::Lz4Result &rr, size_t already, ShardCtl &c, const char *family) {
+    if (rr.ok || in.empty()) return;
+    std::vector<size_t> ps = partial_sizes(in); std::sort(ps.begin(), ps.end()); ps.erase(std::unique(ps.begin(), ps.end()), ps.end());
+    for (size_t s : ps) if (s != already) eval(idx, in, s, rr, c, family);
+}
+// valid blocks with 1..3 bytes appended (every value of the first appended byte, boundary values for the others): the tail is an incomplete sequence
+static void setup_appended(Runner &r, const Tier &) {
+    make_seeds(); r.ncases = g_seeds.size() * 3; r.alarm_every = 64; r.case_alarm_s = 120; r.shard_init = init;
+    r.describe = [](uint64_t i) { const auto &b = g_seeds[i / 3]; JObj o; o.kv("family", "appended_bytes").kv("seed_hex", hex(b.data(), b.size())).kv("appended", (unsigned long long)(i % 3 + 1)); return o; };
+    r.body = [](uint64_t i, ShardCtl &c) { const auto &b = g_seeds[i / 3]; int k = int(i % 3) + 1; ref::Lz4Result full = ref::lz4_decode(b.data(), b.size()); static const uint8_t B[6] = { 0x00, 0x01, 0x04, 0x10, 0xF0, 0xFF };
+        std::vector<uint8_t> in = b; in.resize(b.size() + k); int combos = k == 1 ? 1 : k == 2 ? 6 : 36;
+        for (int v0 = 0; v0 < 256; ++v0) for (int w = 0; w < combos; ++w) { in[b.size()] = uint8_t(v0); if (k > 1) in[b.size() + 1] = B[w % 6]; if (k > 2) in[b.size() + 2] = B[w / 6];
+            ref::Lz4Result rr = ref::lz4_decode(in.data(), in.size()); if (full.out.size()) eval(i, in, full.out.size(), rr, c, "appended_bytes"); if (rr.ok && rr.out.size() && rr.out.size() != full.out.size()) eval(i, in, rr.out.size(), rr, c, "appended_bytes");
+            eval_rejected_at_partial_sizes(i, in, rr, full.out.size(), c, "appended_bytes"); } };
 }
 static bool g_thor;
 static void setup_dev(Runner &r, const Tier &t) {
@@ -95,7 +126,7 @@ static void setup_dev(Runner &r, const Tier &t) {
     r.describe = [](uint64_t i) { const auto &b = g_seeds[i / 48]; JObj o; o.kv("family", "byte_deviation").kv("seed_hex", hex(b.data(), b.size())).kv("position", (unsigned long long)(i % 48)).kv("values", g_thor ? "all 255 x (token byte: all 255)" : "all 255 other values"); return o; };
     r.body = [](uint64_t i, ShardCtl &c) { const auto &b = g_seeds[i / 48]; size_t pos = i % 48; if (pos >= b.size()) return; ref::Lz4Result full = ref::lz4_decode(b.data(), b.size());
         std::vector<uint8_t> in = b;
-        for (int v = 0; v < 256; ++v) { if (v == b[pos]) continue; in[pos] = uint8_t(v); ref::Lz4Result rr = ref::lz4_decode(in.data(), in.size()); eval(i, in, full.out.size(), rr, c, "byte_deviation"); if (rr.ok && rr.out.size() != full.out.size() && rr.out.size() > 0) eval(i, in, rr.out.size(), rr, c, "byte_deviation");
+        for (int v = 0; v < 256; ++v) { if (v == b[pos]) continue; in[pos] = uint8_t(v); ref::Lz4Result rr = ref::lz4_decode(in.data(), in.size()); eval(i, in, full.out.size(), rr, c, "byte_deviation"); eval_rejected_at_partial_sizes(i, in, rr, full.out.size(), c, "byte_deviation"); if (rr.ok && rr.out.size() != full.out.size() && rr.out.size() > 0) eval(i, in, rr.out.size(), rr, c, "byte_deviation");
             if (g_thor && pos != 0) { uint8_t t0 = in[0]; for (int w = 0; w < 256; w += 1) { in[0] = uint8_t(w); ref::Lz4Result r2 = ref::lz4_decode(in.data(), in.size()); eval(i, in, full.out.size(), r2, c, "byte_deviation2"); } in[0] = t0; } }
     };
 }
@@ -105,7 +136,7 @@ static void setup_short(Runner &r, const Tier &t) {
     r.body = [](uint64_t i, ShardCtl &c) { static const uint8_t A[4] = { 0x00, 0x10, 0x1F, 0xF0 }; int L = 13;
         for (int len = L; len <= (g_thor ? 14 : 13); ++len) { std::vector<uint8_t> in(len); uint64_t pre = i; for (int k = 0; k < 5; ++k) { in[k] = A[pre & 3]; pre >>= 2; }
             uint64_t n = 1ULL << (2 * (len - 5)); for (uint64_t v = 0; v < n; ++v) { uint64_t x = v; for (int k = 5; k < len; ++k) { in[k] = A[x & 3]; x >>= 2; } ref::Lz4Result rr = ref::lz4_decode(in.data(), in.size());
-                eval(i, in, rr.ok && rr.out.size() ? rr.out.size() : 40, rr, c, "short13"); } } };
+                eval(i, in, rr.ok && rr.out.size() ? rr.out.size() : 40, rr, c, "short13"); eval_rejected_at_partial_sizes(i, in, rr, 40, c, "short13"); } } };
 }
 
 // ---- table wrapper: [version u32][scheme:5 | announced size:27][block] of the compressed Silf / Glat tables of the compressed seed fonts:
@@ -136,6 +167,7 @@ int main(int argc, char **argv) {
     { Sub s; s.name = "long_runs"; s.setup = setup_longruns; s.budget_quick = 60; s.budget_thorough = 120; s.counter_names = cn; subs.push_back(s); }
     { Sub s; s.name = "blocks3"; s.setup = setup_blocks3; s.budget_quick = 60; s.budget_thorough = 600; s.counter_names = cn; subs.push_back(s); }
     { Sub s; s.name = "truncation"; s.setup = setup_trunc; s.counter_names = cn; subs.push_back(s); }
+    { Sub s; s.name = "appended_bytes"; s.setup = setup_appended; s.budget_quick = 60; s.budget_thorough = 300; s.counter_names = cn; subs.push_back(s); }
     { Sub s; s.name = "byte_deviation"; s.setup = setup_dev; s.budget_quick = 60; s.budget_thorough = 900; s.counter_names = cn; subs.push_back(s); }
     { Sub s; s.name = "table_wrapper"; s.setup = setup_wrapper; s.budget_quick = 60; s.budget_thorough = 300; s.counter_names = { "loads", "accepted" }; subs.push_back(s); }
     { Sub s; s.name = "short13"; s.setup = setup_short; s.budget_quick = 100; s.budget_thorough = 900; s.counter_names = cn; subs.push_back(s); }
